@@ -42,7 +42,7 @@ var errC19Other = stderrors.New("other-error")
 type c19Step struct {
 	outs   int
 	preset []bool // output already carries a correlation id
-	errK   int    // 0 nil, 1 ignored, 2 wrapped ignored, 3 other
+	errK   int    // 0 nil, 1 ignored, 2 wrapped ignored, 3 other, 4 wraps context.DeadlineExceeded
 	panicK int    // 0 none, 1 string, 2 error, 3 nil
 }
 
@@ -101,6 +101,9 @@ func (b *c19Bare) handle(m *message.Message) ([]*message.Message, error) {
 		return outs, errors.Wrap(errC19Ignored, "wrapped")
 	case 3:
 		return outs, errC19Other
+	case 4:
+		// a time-out further down, reported while the message's own context is alive
+		return outs, fmt.Errorf("downstream call %d: %w", i, context.DeadlineExceeded)
 	}
 	return outs, nil
 }
@@ -247,7 +250,7 @@ func c19StackBody(r *Run) {
 		}
 		switch t.Int(6) {
 		case 0, 1:
-			st.errK = 1 + t.Int(3)
+			st.errK = 1 + t.Int(4)
 		case 2:
 			st.panicK = 1 + t.Int(3)
 		}
@@ -582,7 +585,7 @@ func c19ConcurrentBody(r *Run) {
 			}
 			switch t.Int(6) {
 			case 0, 1:
-				st.errK = 1 + t.Int(3)
+				st.errK = 1 + t.Int(4)
 			case 2:
 				st.panicK = 1 + t.Int(3)
 			}
